@@ -1087,7 +1087,7 @@ func c08GenAdd(t *rapid.T, u c08Universe, target *c08Client) c08Op {
 }
 
 func c08GenTick(t *rapid.T) c08Op {
-	if rapid.IntRange(0, 34).Draw(t, "back") == 0 {
+	if rapid.IntRange(0, 24).Draw(t, "back") == 13 { // (rapid over-draws range ends)
 		return c08Op{K: "step", D: rapid.SampledFrom([]int64{int64(2 * time.Millisecond), int64(time.Second), int64(time.Minute), int64(time.Hour)}).Draw(t, "backd")}
 	}
 	return c08Op{K: "tick", D: rapid.SampledFrom(c08Ticks).Draw(t, "d")}
@@ -1192,6 +1192,7 @@ func TestVerifC08(t *testing.T) {
 			"same-tick": 0.15, "suppressed": 0.15, "foreign-user": 0.15,
 			"same-tick-split": 0.10, "wait-woken": 0.10, "wake-by-repeat": 0.04,
 			"wait-cancelled": 0.10, "reload": 0.10, "multi-result": 0.15,
+			"multi-waiter": 0.05, "wall-step-back": 0.003,
 		},
 		NonTrivialFloor: 0.5,
 	})
